@@ -11,7 +11,7 @@ from vmc import core, family, hist
 PROPERTY = "C14"
 ENGINE = "E2 histories + E3 schedules"
 RULE = ("(a) every history up to the depth bound over the alphabet {to_dict, from_dict, to_jsonb, from_json, to_msgpack, from_msgpack} x "
-        "{no dialect, D1, D2} x classes of 5 families x {eager, lazy, postponed} x dialect support on/off: every call's outcome must equal "
+        "{no dialect, D1, D2} x classes of 8 families x {eager, lazy, postponed} x dialect support on/off: every call's outcome must equal "
         "the same call on a fresh eager twin; RecursionError / AttributeError on internals are violations. (b) every interleaving of the "
         "first calls of 2-3 threads up to the preemption bound: every thread's outcome, and one further sequential call afterwards, must "
         "equal the eager twin's. Non-trivial: a transition taken from a non-initial canonical state, or a schedule with >= 1 preemption.")
@@ -38,7 +38,12 @@ def units(tier):
     for fam in family.FAMILIES:
         for mode in MODES:
             for support in (False, True):
-                out.append(("hist", fam, mode, support, 3 if tier == "quick" else 4))
+                if tier == "quick":
+                    out.append(("hist", fam, mode, support, 3))
+                else:
+                    # one search per first operation: balanced units, bounded memory
+                    n = len(family.ops_for(fam, support)) + (1 if fam == "deep" else 0)
+                    out += [("hist", fam, mode, support, 4, i) for i in range(n)]
     try:
         from vmc.checks import c14_sched
         out += c14_sched.units(tier)
@@ -98,7 +103,8 @@ class Model:
 
 
 def run_hist(unit, only=None):
-    _, fam, mode, support, depth = unit
+    _, fam, mode, support, depth = unit[:5]
+    first = unit[5] if len(unit) > 5 else None
     res = core.UnitResult()
     model = Model(fam, mode, support)
     if only is not None:
@@ -113,7 +119,7 @@ def run_hist(unit, only=None):
             res.violation("replay", "outcome-neq-twin", got[1] if got[0] == "exc" else "value",
                           dict(unit=unit, history=h, op=op), f"got={got!r:.300} expected={exp!r:.300}")
         return res
-    r = hist.bfs(model, depth)
+    r = hist.bfs(model, depth, first=first)
     res.cases = r.transitions
     res.transitions = r.transitions
     res.states = r.states
@@ -121,7 +127,7 @@ def run_hist(unit, only=None):
     res.outcomes.update(r.outcomes)
     res.counters["states_with_multiple_predecessors"] += r.multi_pred
     res.counters["max_depth_completed"] = max(res.counters["max_depth_completed"], r.max_depth + 1)
-    res.nontrivial = max(0, r.transitions - len(model.alphabet))
+    res.nontrivial = max(0, r.transitions - (len(model.alphabet) if first is None else 1))
     for (h, op, got, exp) in r.violations:
         oc = got[1] if got[0] == "exc" else "value"
         first = (op if not h else h[0])
